@@ -58,6 +58,15 @@ Theorem C18_assigned_is_current : forall ops p s,
   /\ (p_indent (hrun p ops) <> None -> p_indent (hrun p (ops ++ [HSetIndent s])) = Some s).
 Proof. exact assigned_is_current. Qed.
 
+(* deep copies (the node, its transaction, the whole file) inside a history: C18_history covers the
+   HDeepCopy step; the rule under the copy reads the original's indent and configured indent_by *)
+Theorem C18_copy_keeps_rule : forall ops p k, let q := hrun p ops in
+  metas (p_items q) = [] ->
+  p_items (hrun p (ops ++ [HDeepCopy; HSetItem k])) = p_items q ++ [IMeta (parent_indent q ++ p_indent_by q) k]
+  /\ p_indent_by (hrun p (ops ++ [HDeepCopy])) = p_indent_by q
+  /\ p_indent (hrun p (ops ++ [HDeepCopy])) = p_indent q.
+Proof. exact copy_keeps_rule. Qed.
+
 (* non-vacuity *)
 Example C18_meta_shared_ex :
   let p := mkparent (Some [32; 32]) [9] [IComment [32]; IMeta [32; 9] 1; IMeta [32; 9] 2] in
@@ -75,4 +84,7 @@ Proof. repeat split. Qed.
 Example C18_history_ex :
   let p := mkparent (Some [32]) [32; 32] [] in
   p_items (hrun p [HSetItem 1; HClear; HSetIndentBy [9]; HSetIndent [9; 9]; HSetItem 2]) = [IMeta [9; 9; 9] 2].
+Proof. reflexivity. Qed.
+Example C18_copy_ex :
+  p_items (hrun (mkparent None [32; 32; 32; 32] []) [HSetIndentBy [9]; HDeepCopy; HSetItem 1]) = [IMeta [9] 1].
 Proof. reflexivity. Qed.
